@@ -18,12 +18,13 @@ class Entry:
     target: Any            # qual / ast.Lambda / builtin name / dotted
     node: ast.AST
     line: int
+    module: Any = None     # module a lambda was written in, when that is not the module of the table
 
     def funcinfo(self, F: Facts) -> Optional[FuncInfo]:
         if self.kind == 'fn':
             return F.func(self.target)
         if self.kind == 'lambda':
-            return FuncInfo('%s.FUNCTIONS[%r]' % (FUNCS_MOD, self.key), F.modules[FUNCS_MOD], self.target)
+            return FuncInfo('%s.FUNCTIONS[%r]' % (FUNCS_MOD, self.key), self.module or F.modules[FUNCS_MOD], self.target)
         return None
 
     @property
@@ -38,7 +39,7 @@ class Entry:
         return '%s %s' % (self.kind, self.target)
 
 
-def _entry_for(F: Facts, m: Module, key: str, v: ast.AST) -> Entry:
+def _entry_for(F: Facts, m: Module, key: str, v: ast.AST, _depth: int = 0) -> Entry:
     if isinstance(v, ast.Lambda):
         return Entry(key, 'lambda', v, v, v.lineno)
     if isinstance(v, ast.Call) and isinstance(v.func, ast.Name) and v.func.id == 'staticmethod' and len(v.args) == 1 and not v.keywords:
@@ -56,6 +57,15 @@ def _entry_for(F: Facts, m: Module, key: str, v: ast.AST) -> Entry:
                 if isinstance(st, ast.Assign) and any(isinstance(t, ast.Name) and t.id == v.attr for t in st.targets):
                     return _entry_for(F, ci.module, key, st.value)
     r = F.resolve_expr(m, v)
+    if r[0] == 'modvar' and _depth < 4:
+        # a name bound once, in this or another package module, to a lambda / function / builtin: the entry is that value
+        mod, _, var = r[1].rpartition('.')
+        mm = F.modules.get(mod)
+        vals = mm.assigns.get(var) if mm else None
+        if vals and len(vals) == 1 and vals[0] is not None and not any(isinstance(n, ast.Global) and var in n.names for n in ast.walk(mm.tree)):
+            e = _entry_for(F, mm, key, vals[0], _depth + 1)
+            if e.kind != 'other':
+                return Entry(key, e.kind, e.target, e.node, v.lineno if mm is not m else e.line, module=mm) if e.kind == 'lambda' else e
     if r[0] == 'fn':
         return Entry(key, 'fn', r[1], v, v.lineno)
     if r[0] == 'builtin':
@@ -115,7 +125,7 @@ def _from_execution(F: Facts, m: Module) -> Dict[str, Entry]:
             node = v.node
             line = node.lineno
             if isinstance(node, ast.Lambda):
-                e = Entry(k[1], 'lambda', node, node, line)
+                e = Entry(k[1], 'lambda', node, node, line, module=v.module)
             else:
                 e = Entry(k[1], 'fn', v.module.name + '.' + node.name, node, line)
         elif isinstance(fv, tuple) and fv[:1] == ('ref',):
